@@ -234,7 +234,7 @@ func ruleAccounting(p *Program, r *Result) {
 			}
 			// a sink that reports errors must have succeeded
 			if call, ok := w.(*ssa.Call); ok && hasErrorResult(call) {
-				if g, wy := guardedBySuccess(call, rs.Call, nil); !g {
+				if g, wy := guardedBySuccess(call, rs.At, nil); !g {
 					guarded = false
 					why = "the sink's error result does not guard the SUCCESS reply: " + wy
 				}
@@ -390,40 +390,15 @@ func ruleJSONFaithful(p *Program, r *Result, structName string) {
 
 var _ = strings.Contains
 
-type originEdge struct {
-	blk  *ssa.BasicBlock // the block the SUCCESS value comes from
-	into *ssa.BasicBlock // for a merged alternative: the merge block (nil for the reply's own block)
-}
-
 // successOrigins: the places a reply's SUCCESS status comes from.
 func successOrigins(p *Program, rs ReplySite, success int64) []originEdge {
-	var out []originEdge
 	vals := rs.Options["SetAcctReplyStatus"]
 	if len(vals) == 0 {
-		return []originEdge{{blk: rs.Call.Block()}}
+		return []originEdge{{blk: rs.At.Block()}}
 	}
-	seen := map[ssa.Value]bool{}
-	var walk func(v ssa.Value, at originEdge)
-	walk = func(v ssa.Value, at originEdge) {
-		v = stripConv(v)
-		if seen[v] {
-			return
-		}
-		seen[v] = true
-		if phi, ok := v.(*ssa.Phi); ok {
-			for i, e := range phi.Edges {
-				cs := map[int64]bool{}
-				if constSources(p, e, 6, cs) && !cs[success] {
-					continue
-				}
-				walk(e, originEdge{blk: phi.Block().Preds[i], into: phi.Block()})
-			}
-			return
-		}
-		out = append(out, at)
-	}
+	var out []originEdge
 	for _, v := range vals {
-		walk(v, originEdge{blk: rs.Call.Block()})
+		out = append(out, constOrigins(p, v, map[int64]bool{success: true}, rs.At.Block())...)
 	}
 	return out
 }
